@@ -25,7 +25,7 @@ def currentGuardsLockedNeighbour : Bool := true
     narrows a wide rune whose right neighbour is locked only when it *paints* it, so the width it returns to the draw
     loop (and hence which columns the loop skips) depends on whether the cell happened to be dirty; `true` = the narrowing is
     decided before the Dirty check, the loop's walk depends on contents and locks only.  See finding C13-locked-wide-walk. -/
-def currentWalkGuard : Bool := false
+def currentWalkGuard : Bool := true
 
 /-- static configuration of a screen as far as drawing is concerned -/
 structure DrawCfg where
